@@ -35,6 +35,8 @@ pub struct MatchScenario {
 	pub answers: Vec<Ans>,
 	pub extras: Vec<Extra>,
 	pub lib_points: bool,
+	/// scheduling points inside the transport's send (before the bytes leave / before send returns)
+	pub tx_points: bool,
 }
 
 fn mask_lib(l: &str) -> bool {
@@ -77,7 +79,7 @@ impl MatchScenario {
 impl Scenario for MatchScenario {
 	type State = CliState;
 	fn name(&self) -> String {
-		format!("cli_mem/match:{:?}:{:?}:{:?}:{:?}:{}", self.id_kind, self.ops, self.answers, self.extras, if self.lib_points { "lib" } else { "nolib" })
+		format!("cli_mem/match:{:?}:{:?}:{:?}:{:?}:{}{}", self.id_kind, self.ops, self.answers, self.extras, if self.lib_points { "lib" } else { "nolib" }, if self.tx_points { ":txpoints" } else { "" })
 	}
 	fn config(&self) -> Value {
 		json!({"id_kind": format!("{:?}", self.id_kind), "ops": format!("{:?}", self.ops), "answers": format!("{:?}", self.answers), "extras": format!("{:?}", self.extras)})
@@ -86,7 +88,7 @@ impl Scenario for MatchScenario {
 		if self.lib_points { mask_lib } else { mask_nolib }
 	}
 	fn setup(&self) -> CliState {
-		clim::setup(&CliScenarioCfg { id_kind: self.id_kind, ops: self.ops.clone(), env: self.env(), fail_send_at: None, tx_points: false, buffer_cap: 4, late_after: 0 })
+		clim::setup(&CliScenarioCfg { id_kind: self.id_kind, ops: self.ops.clone(), env: self.env(), fail_send_at: None, tx_points: self.tx_points, buffer_cap: 4, late_after: 0 })
 	}
 	fn judge(&self, st: CliState, _trace: &[String], panics: &[String], status: Status) -> Verdict {
 		let mut v = Vec::new();
@@ -142,14 +144,18 @@ impl Scenario for MatchScenario {
 						// a notification future completes once the message is queued; nothing to match
 						continue;
 					}
+					if *op == FeOp::AbandonCall && r == "abandoned" {
+						// the application dropped the future; whatever arrives later for it must not disturb anyone else
+						continue;
+					}
 					let Some(k) = k else {
 						v.push((format!("completed-without-request:{opk}"), format!("op #{i} completed with {r} but never put a request on the wire")));
 						continue;
 					};
 					let expected = match op {
-						FeOp::Call | FeOp::LateCall => format!("\"r{k}\""),
+						FeOp::Call | FeOp::LateCall | FeOp::AbandonCall => format!("\"r{k}\""),
 						FeOp::Subscribe | FeOp::SubscribeDrop => format!("Subscription(Str(\"S{k}\"))"),
-						FeOp::Batch(n) => format!("[{}]", (0..*n).map(|j| format!("\"r{k}.{j}\"")).collect::<Vec<_>>().join(",")),
+						FeOp::Batch(n) | FeOp::LateBatch(n) => format!("[{}]", (0..*n).map(|j| format!("\"r{k}.{j}\"")).collect::<Vec<_>>().join(",")),
 						FeOp::Notif => "sent".into(),
 					};
 					// batch summaries carry `#s..f..o..` after the entry list; C03 compares the entries
@@ -237,9 +243,23 @@ pub fn scenarios(thorough: bool) -> Vec<MatchScenario> {
 					continue;
 				}
 				for id_kind in [IdKind::Number, IdKind::String] {
-					out.push(MatchScenario { id_kind, ops: ops.clone(), answers: pat.clone(), extras: ex.clone(), lib_points: thorough });
+					out.push(MatchScenario { id_kind, ops: ops.clone(), answers: pat.clone(), extras: ex.clone(), lib_points: thorough, tx_points: false });
 				}
 			}
+		}
+	}
+	// (a) the answer may overtake the return of the transport's send; (b) a caller abandons its call
+	for id_kind in [IdKind::Number, IdKind::String] {
+		for ops in [vec![FeOp::Call], vec![FeOp::Call, FeOp::Call], vec![FeOp::Call, FeOp::Subscribe], vec![FeOp::Batch(2), FeOp::Call]] {
+			let n = ops.len();
+			out.push(MatchScenario { id_kind, ops, answers: vec![Ans::Ok; n], extras: vec![], lib_points: thorough, tx_points: true });
+		}
+		for ops in [vec![FeOp::AbandonCall, FeOp::Call], vec![FeOp::AbandonCall, FeOp::Subscribe], vec![FeOp::AbandonCall, FeOp::AbandonCall, FeOp::Call]] {
+			let n = ops.len();
+			out.push(MatchScenario { id_kind, ops: ops.clone(), answers: vec![Ans::Ok; n], extras: vec![], lib_points: false, tx_points: false });
+			let mut a = vec![Ans::Ok; n];
+			a[0] = Ans::Err;
+			out.push(MatchScenario { id_kind, ops, answers: a, extras: vec![], lib_points: false, tx_points: false });
 		}
 	}
 	out
